@@ -32,7 +32,7 @@ RULES = {
 PROBES = ["repeated_start", "start_while_target_acks", "stop_after_read_ack", "write_nak", "read_ack", "read_nak",
           "stretch_applied", "stretch_longer_than_quarter", "stretch_in_start_stop", "target_data_late_in_stretch", "strobe_same_cycle_busy_falls",
           "spurious_strobe_while_busy", "byte_without_start", "scl_push_pull", "no_clk_stretch_config", "period_not_multiple_of_4",
-          "bytes_checked", "ops_performed"]
+          "bytes_checked", "ops_performed", "data_i_ack_i_changed_after_strobe"]
 META = {
     "components_real": ["luna.gateware.interface.i2c.I2CInitiator", "luna.gateware.interface.i2c.I2CBusDriver (incl. FFSynchronizers)"],
     "components_stubbed": ["open-drain bus + I2C target + operation driver (models.periph_i2c.I2CEnv)"],
@@ -41,7 +41,7 @@ META = {
                     "exactly two synchroniser cycles after releasing it and has no margin for any wire delay",
                     "the target changes SDA only while SCL is low (1-2 cycles after the falling edge) and stretches SCL only by "
                     "holding it after a falling edge; it stretches only when clk_stretch=True and SCL is open-drain",
-                    "one strobe at a time; data_i/ack_i valid in the strobe cycle",
+                    "one strobe at a time; data_i/ack_i valid in the strobe cycle (in half of the byte operations they change to the complement right after it)",
                     "strobes while busy (tagged fault) are placed where every implementation is certainly busy (right after the "
                     "operation started) and are expected to be ignored as documented",
                     "liveness bound per operation: 3x(nominal duration + total stretch) + 60 cycles"],
@@ -107,6 +107,11 @@ def gen(rng, tier, index):
             if lim >= 1:
                 op["spurious"] = [[rng.randint(1, lim), rng.choice(["start", "stop", "write", "read"])]
                                   for _ in range(rng.randint(1, 2))]
+    for op in ops:
+        # data_i / ack_i are requested *with the strobe*: in half of the byte operations the requester presents the
+        # complement from the next cycle on (as LUNA's own I2CRegisterInterface does with ack_i)
+        if op["op"] in ("write", "read") and rng.random() < 0.5:
+            op["params_after"] = "invert"
     return {"engine": ENGINE, "config": {"period_cyc": period, "clk_stretch": clk_stretch, "scl_push_pull": push_pull}, "ops": ops}
 
 
@@ -322,6 +327,7 @@ def run(scn):
         if env.windows[k][0] == (env.windows[k - 1][1] or -5) + 1:
             probes["strobe_same_cycle_busy_falls"] += 1
     probes["spurious_strobe_while_busy"] = env.spurious_fired
+    probes["data_i_ack_i_changed_after_strobe"] = env.params_changed
     probes["target_data_late_in_stretch"] = env.late_data_used
     if pp:
         probes["scl_push_pull"] += 1
